@@ -8,7 +8,34 @@ var engines = []engine{
 		Harness:  []string{"controller", "internal/allocator", "internal/k8s/controllers"},
 		StubTest: []string{"controller"},
 	},
+	{
+		Name: "kspk", TestPkg: "speaker", TestName: "TestVerifKspk", SimPkgs: kspkPkgs, Rules: "r1,r4", Subst: "harness/speaker_subst.json",
+		Harness:  []string{"speaker", "internal/layer2", "internal/k8s/controllers"},
+		StubTest: []string{"speaker"},
+	},
 }
+
+var kspkPkgs = []string{"speaker", "internal/layer2", "internal/config", "internal/k8s/controllers", "internal/k8s", "internal/k8s/epslices", "internal/k8s/nodes", "internal/bgp", "internal/bgp/community"}
+
+var kspkComponents = map[string]string{
+	"speaker controller (SetBalancer/SetConfig/SetNode), layer2Controller, bgpController":        "real (map ranges rewritten to a chosen order)",
+	"layer2.Announce bookkeeping (SetBalancer/DeleteBalancer/shouldAnnounce)":                     "real, constructed without goroutines (no OS interface scan, no responders)",
+	"controllers.ServiceReconciler (endpoint slices), ConfigReconciler, NodeReconciler + predicate": "real",
+	"internal/config (config.For), k8s.Listener":                                                   "real",
+	"Kubernetes API server, informer caches, work queues":                                          "simulated (simk8s), one cache and three queues per speaker",
+	"hashicorp/memberlist (internal/speakerlist)":                                                  "stub behind the SpeakerList interface: ground-truth membership, lagging views, false suspicion",
+	"BGP session manager":                                                                          "recording stub (arguments of the last Set per live session)",
+	"MetalLB controller":                                                                           "played by the environment (writes pool-consistent status addresses, clears orphaned ones)",
+}
+
+var kspkAssume = []string{
+	"quiescence = every running speaker has applied every watch event, emptied its queues and has a memberlist view equal to the ground truth; oracles run only when the API server's current configuration is one the ConfigReconciler accepts (shared view)",
+	"oracles are computed from raw API objects by /verif/sim/specspk; the layer-2 election is not mirrored: only uniqueness, eligibility, agreement and minimal movement are demanded",
+	"services sharing an address under the Local policy have identical endpoint slices (generator restriction = 'identical pod selectors')",
+}
+
+const kspkRule = "Each run draws swarm knobs (2-4 nodes, memberlist on/off, exclude-label handling, BGP mode, fault kinds, lag, interleaving, map and list orders), boots one real speaker per node on a generated cluster (a quarter of the runs apply no further event), then schedules generated service/endpoint/node/advertisement/peer/pool/membership events against informer deliveries, worker steps of the three reconcilers of every speaker, speaker crashes/restarts and false suspicions."
+
 
 var kctlComponents = map[string]string{
 	"controller.SetBalancer/SetPools/convergeBalancer/allocateIPs":                    "real (compiled from the working tree, map ranges rewritten to a chosen order)",
@@ -42,8 +69,20 @@ var props = []propDef{
 		Batches: []batch{{Engine: "kctl", Variant: "", Runs: 24000, RunsT: 400000, WallS: 150, WallST: 1500}}},
 }
 
+func spkProp(id string) propDef {
+	return propDef{ID: id, Level: "exploration", Rule: kspkRule, Assumptions: kspkAssume, Components: kspkComponents,
+		Batches: []batch{{Engine: "kspk", Variant: "", Runs: 12000, RunsT: 200000, WallS: 170, WallST: 1500}}}
+}
+
+func init() {
+	for _, id := range []string{"C04", "C05", "C09", "C10", "C12"} {
+		props = append(props, spkProp(id))
+	}
+}
+
 var expectedProbes = map[string][]string{}
 
 var selftestVariants = map[string][]string{
 	"kctl": {"", "faults=on"},
+	"kspk": {""},
 }
